@@ -51,8 +51,8 @@ type healRun struct {
 	s        *sim
 	res      *healResult
 	pages    int
-	right    []hash.SHA256Hash            // right[pg]: XOR of the refs whose clock lies on page pg
-	garbage  map[string]map[int]string    // garbage[n][pg]: tag currently XORed into that leaf by the script
+	right    []hash.SHA256Hash         // right[pg]: XOR of the refs whose clock lies on page pg
+	garbage  map[string]map[int]string // garbage[n][pg]: tag currently XORed into that leaf by the script
 	stepNo   int
 	universe *universe
 }
